@@ -11,7 +11,12 @@ int g_dispatch_native = 1;
 
 // hook H1 (guard SPQLIOS_VERIF in /repo/spqlios/commons_private.c)
 extern void spqlios_verif_set_cpu_mask(int allow_accelerated);
+static int dispatch_set_once;
 void set_dispatch(int native) {
+  // no write when nothing changes: worker threads of the concurrency cases call this with the current value and
+  // must not race on the hook's own global (that would be a harness artefact, not a library race)
+  if (dispatch_set_once && g_dispatch_native == native) return;
+  dispatch_set_once = 1;
   g_dispatch_native = native;
   spqlios_verif_set_cpu_mask(native);
 }
